@@ -127,3 +127,188 @@ def compile_full(txt, fill_spacetime=True):
                 prog.reset()
                 ms.get_spacetime()[out] = {"space": [], "time": [SpaceTimeParser.parse(r) for r in ranks]}
     return HiFiber(es, ms, Architecture.from_str(txt), Bindings.from_str(txt), Format.from_str(txt))
+
+
+# ------------------------------------------------------------------------------------- accelerator spec variants
+_INDEX_MATH_SPECS = [("conv1d-buffered-input", """
+einsum:
+  declaration:
+    I: [W]
+    F: [S]
+    O: [Q]
+  expressions:
+  - O[q] = I[q + s] * F[s]
+mapping:
+  loop-order:
+    O: [Q, S]
+architecture:
+  acc:
+  - name: System
+    attributes:
+      clock_frequency: 1000000000
+    local:
+    - name: Mem
+      class: DRAM
+      attributes:
+        bandwidth: 256
+    subtree:
+    - name: PE
+      local:
+      - name: Buf
+        class: Buffet
+        attributes:
+          width: 64
+          depth: 512
+      - name: Seq
+        class: Sequencer
+        attributes:
+          num_ranks: 2
+      - name: Mul
+        class: Compute
+        attributes:
+          type: mul
+bindings:
+  O:
+  - config: acc
+    prefix: tmp/conv1d
+  - component: Mem
+    bindings:
+    - {tensor: I, rank: W, type: coord, format: default}
+    - {tensor: I, rank: W, type: payload, format: default}
+    - {tensor: F, rank: S, type: payload, format: default}
+  - component: Buf
+    bindings:
+    - {tensor: I, rank: W, type: coord, format: default, evict-on: root}
+    - {tensor: I, rank: W, type: payload, format: default, evict-on: root}
+    - {tensor: F, rank: S, type: payload, format: default, evict-on: root}
+  - component: Seq
+    bindings:
+    - rank: Q
+    - rank: S
+  - component: Mul
+    bindings:
+    - op: mul
+format:
+  I:
+    default:
+      rank-order: [W]
+      W: {format: C, cbits: 32, pbits: 64}
+  F:
+    default:
+      rank-order: [S]
+      S: {format: C, cbits: 32, pbits: 64}
+"""), ("strided-access-buffered", """
+einsum:
+  declaration:
+    A: [K]
+    B: [M]
+    Z: [M]
+  expressions:
+  - Z[m] = A[2 * m] * B[m]
+mapping:
+  loop-order:
+    Z: [M]
+architecture:
+  acc:
+  - name: System
+    attributes:
+      clock_frequency: 1000
+    local:
+    - name: Mem
+      class: DRAM
+      attributes:
+        bandwidth: 256
+    subtree:
+    - name: Chip
+      local:
+      - name: Buf
+        class: Buffet
+        attributes:
+          width: 64
+          depth: 512
+bindings:
+  Z:
+  - config: acc
+    prefix: tmp/strided
+  - component: Mem
+    bindings:
+    - {tensor: A, rank: K, type: coord, format: default}
+    - {tensor: A, rank: K, type: payload, format: default}
+  - component: Buf
+    bindings:
+    - {tensor: A, rank: K, type: coord, format: default, evict-on: root}
+    - {tensor: A, rank: K, type: payload, format: default, evict-on: root}
+format:
+  A:
+    default:
+      rank-order: [K]
+      K: {format: C, cbits: 32, pbits: 64}
+""")]
+
+
+def accelerator_variants(tier="quick"):
+    """(name, yaml text): the accelerator specifications of the repository, two small index-math specifications, and
+    single-point variants of each: the style of ONE buffer binding flipped (lazy <-> eager), the type of ONE
+    intersector changed. Variants the compiler rejects are simply not evaluated by the callers."""
+    import copy
+    import io
+    from ruamel.yaml import YAML
+
+    class yaml:      # noqa: N801  (ruamel is what the repository itself depends on)
+        @staticmethod
+        def safe_load(t):
+            return YAML(typ="safe").load(t)
+
+        @staticmethod
+        def safe_dump(d, sort_keys=False):
+            buf = io.StringIO()
+            y = YAML(typ="safe")
+            y.default_flow_style = False
+            y.sort_base_mapping_type_on_output = False
+            y.dump(d, buf)
+            return buf.getvalue()
+    base = list(accelerator_specs()) + list(_INDEX_MATH_SPECS)
+    out = list(base)
+    for name, txt in base:
+        try:
+            doc = yaml.safe_load(txt)
+        except Exception:      # noqa
+            continue
+        if not isinstance(doc, dict) or not isinstance(doc.get("bindings"), dict):
+            continue
+        n = 0
+        for einsum, comps in doc["bindings"].items():
+            for ci, comp in enumerate(comps or []):
+                for bi, b in enumerate(comp.get("bindings") or [] if isinstance(comp, dict) else []):
+                    if not isinstance(b, dict) or "tensor" not in b or "evict-on" not in b:
+                        continue
+                    for new in ("lazy", "eager"):
+                        if b.get("style", "lazy") == new:
+                            continue
+                        n += 1
+                        d2 = copy.deepcopy(doc)
+                        b2 = d2["bindings"][einsum][ci]["bindings"][bi]
+                        b2["style"] = new
+                        out.append(("%s ~ %s/%s[%d].style=%s" % (name, einsum, comp.get("component"), bi, new),
+                                    yaml.safe_dump(d2, sort_keys=False)))
+
+        def levels(node):
+            yield node
+            for s in node.get("subtree") or []:
+                yield from levels(s)
+        for cfg, roots in (doc.get("architecture") or {}).items():
+            for root in roots or []:
+                for lv in levels(root):
+                    for li, loc in enumerate(lv.get("local") or []):
+                        if str(loc.get("class", "")).lower() != "intersector":
+                            continue
+                        for ty in ("skip-ahead", "two-finger"):
+                            if (loc.get("attributes") or {}).get("type") == ty:
+                                continue
+                            d2 = copy.deepcopy(doc)
+                            for lv2 in [x for r in d2["architecture"][cfg] for x in levels(r)]:
+                                for loc2 in lv2.get("local") or []:
+                                    if loc2.get("name") == loc.get("name"):
+                                        loc2.setdefault("attributes", {})["type"] = ty
+                            out.append(("%s ~ %s.type=%s" % (name, loc.get("name"), ty), yaml.safe_dump(d2, sort_keys=False)))
+    return out
